@@ -76,7 +76,8 @@ ASSUMPTIONS = [
     "option combinations the property does not speak about (old-files or "
     "interval without when/max-size, when together with max-size, interval "
     "on a std stream) are 'unspecified': the load outcome is not judged",
-    "'when' and 'encoding' values are restricted to valid ones",
+    "'when' and 'encoding' values the handler classes cannot work with "
+    "must be refused when the configuration is loaded",
     "real logging / logging.handlers and real files in a scratch directory; "
     "clock = simulated time.time, TZ=UTC; GC disabled between explicit gc "
     "operations",
@@ -353,6 +354,20 @@ def model_handler(h):
         elif iv and not when:
             spec = "unspec"
         out["kind"] = "timed" if when else ("size" if ms else "plain")
+    if path not in ("STDOUT", "STDERR"):
+        # a rotation interval the handler class has no meaning for, an
+        # encoding Python has no codec for: the section can never become a
+        # handler, so an accepted configuration cannot contain it
+        w_ = when.upper()
+        if when and not (w_ in ("S", "M", "H", "D", "MIDNIGHT") or (
+                len(w_) == 2 and w_[0] == "W" and w_[1] in "0123456")):
+            spec = "reject"
+        if enc is not None:
+            import codecs
+            try:
+                codecs.lookup(enc)
+            except LookupError:
+                spec = "reject"
     for v in (spec, fv):
         if v == "reject":
             out["verdict"] = "reject"
@@ -548,6 +563,10 @@ def gen_handler(rng, k, p_bad=0.3):
         h["delay"] = rng.choice(BOOL_FALSE)
     if rng.random() < 0.2 and (bad or not std):
         h["encoding"] = rng.choice(["utf-8", "latin-1", "ascii"])
+        if bad and rng.random() < 0.4:
+            h["encoding"] = rng.choice(["no-such-codec", "utf-99", "ebcdic!"])
+    if bad and h.get("when") and rng.random() < 0.4:
+        h["when"] = rng.choice(["Q", "W7", "W", "midnite", "5", "DD", "w9"])
     if rng.random() < 0.7:
         h["style"] = rng.choice(["classic", "format", "template",
                                  "safe-template"])
